@@ -195,7 +195,46 @@ func (p *Program) lockSetsInto(fn *ssa.Function, entry lockState, res map[ssa.In
 	if first {
 		exit = lockState{}
 	}
+	// deferred unlocks run when the function returns: the caller continues without those locks
+	for _, b := range fn.Blocks {
+		for _, i := range b.Instrs {
+			d, ok := i.(*ssa.Defer)
+			if !ok {
+				continue
+			}
+			for _, op := range p.deferredUnlocks(d) {
+				delete(exit, op)
+			}
+		}
+	}
 	return exit
+}
+
+// deferredUnlocks lists the mutex paths released by a defer statement: `defer mu.Unlock()` or a deferred function
+// literal whose body unlocks.
+func (p *Program) deferredUnlocks(d *ssa.Defer) []string {
+	var out []string
+	key := p.calleeKey(d.Common())
+	for _, pre := range []string{"(*sync.RWMutex).", "(*sync.Mutex)."} {
+		if strings.HasPrefix(key, pre) {
+			k := strings.TrimPrefix(key, pre)
+			if (k == "Unlock" || k == "RUnlock") && len(d.Common().Args) > 0 {
+				out = append(out, p.expr(d.Common().Args[0]))
+			}
+		}
+	}
+	if mc, ok := d.Common().Value.(*ssa.MakeClosure); ok {
+		if lit, ok := mc.Fn.(*ssa.Function); ok {
+			for _, b := range lit.Blocks {
+				for _, i := range b.Instrs {
+					if op := p.lockOpOf(i); op != nil && (op.kind == "Unlock" || op.kind == "RUnlock") {
+						out = append(out, op.path)
+					}
+				}
+			}
+		}
+	}
+	return out
 }
 
 // ---------------------------------------------------------------------------
